@@ -201,7 +201,8 @@ def generate(seed, tier):
     api = r.choice(APIS)
     backend = r.choice(['py', 'c'])
     label, text = corpus.pick_text(kernel.rng(seed, 'doc'))
-    case = {'label': label, 'api': api, 'backend': backend, 'mode': 'clean', 'defect': None}
+    case = {'label': label, 'api': api, 'backend': backend, 'mode': 'clean', 'defect': None,
+            'loader': kernel.rng(seed, 'loader').choice(['SafeLoader', 'SafeLoader', 'SafeLoader', 'FullLoader', 'BaseLoader'])}
     rs = kernel.rng(seed, 'schedule')
     if mode < 0.10:
         # every two-piece split of a small text through one stream family
@@ -296,7 +297,7 @@ def generate(seed, tier):
 
 
 def describe(case):
-    d = {k: case.get(k) for k in ('label', 'api', 'backend', 'mode', 'defect', 'family')}
+    d = {k: case.get(k) for k in ('label', 'api', 'backend', 'loader', 'mode', 'defect', 'family')}
     d['text_head'] = case['text'][:80]
     d['text_len'] = len(case['text'])
     if 'deliveries' in case:
@@ -310,16 +311,20 @@ def describe(case):
 _loader_cache = {}
 
 
+LOADER_NAME = ['SafeLoader']       # set per case by execute(): Safe / Full / Base loader of the back-end
+
+
 def loader_class(yaml, backend, block):
-    key = (backend, block)
+    name = LOADER_NAME[0]
+    key = (backend, block, name)
     if key in _loader_cache:
         return _loader_cache[key]
     if backend == 'c':
-        cls = yaml.CSafeLoader
+        cls = getattr(yaml, 'C' + name)
     elif block is None:
-        cls = yaml.SafeLoader
+        cls = getattr(yaml, name)
     else:
-        base = yaml.SafeLoader
+        base = getattr(yaml, name)
 
         class BlockLoader(base):
             _block = block
@@ -498,6 +503,7 @@ def probes_for(data, family, readlog, backend, block):
 def execute(case):
     import yaml
     api, backend, text = case['api'], case['backend'], case['text']
+    LOADER_NAME[0] = case.get('loader') or 'SafeLoader'
     out = {'violations': [], 'evals': 0, 'probes': {}, 'faults': {}, 'sigs': [], 'extra': {}}
     if backend == 'c' and not getattr(yaml, '__with_libyaml__', False):
         out['extra']['c_backend_not_run'] = 1
